@@ -191,7 +191,10 @@ class FieldData:
                "Matching previous line: {}".format(str(previous)))
          self._gfa._unregister_line(self)
     if value is None:
-      if fieldname in self._data:
+      if fieldname in self.tagnames:
+        # as delete(): a removed tag leaves no datatype behind
+        self.delete(fieldname)
+      elif fieldname in self._data:
         self._data.pop(fieldname)
     else:
       if self.vlevel >= 3:
